@@ -92,8 +92,22 @@ def sweep_hash(nkeys, seed, thorough):
             desc = '%s(RF=%d, DIVERSE=%r, %s) after %r' % (cls_name, rf, diverse, hash_type, ops)
             if r.countDestinations() != len(cur) or not all(r.hasDestination(d) for d in cur):
               fail('hash-configured-set', '%s: countDestinations/hasDestination disagree with the configured set %r' % (desc, cur))
-            for k in ks:
+            # every behaviour class of the ring: routing is constant between two ring entries, so
+            # the positions of all entries, their successors, 0 and 65535 cover ALL 65536 positions
+            pinned = []
+            ring = getattr(r, 'ring', None)
+            if cls_name == 'ConsistentHashingRouter' and ring is not None and hasattr(ring, 'ring') and hasattr(ring, 'compute_ring_position'):
+              pts = sorted(set([0, 65535] + [e[0] for e in ring.ring] + [min(65535, e[0] + 1) for e in ring.ring]))
+              box = [0]
+              ring.compute_ring_position = lambda key, _b=box: _b[0]
+              pinned = [('@%d' % p, p) for p in pts]
+            for k in ks + pinned:
               evals += 1
+              if isinstance(k, tuple):
+                box[0] = k[1]
+                k = k[0]
+              elif pinned:
+                continue        # (named keys were already run by the other router classes)
               try:
                 out = list(r.getDestinations(k))
               except Exception as e:
